@@ -499,8 +499,12 @@ def asm_fit(r, payload):
     ])
     counts = np.array([3, 2, 4])
     n_alleles = [2, 3, 2]
-    for chains, steps, fix, F, temps, probs, thr, seed in ((1, 3, 0.999, 0.0, (1.0,), (0.5, 0.25, 1.0), 100, 11), (3, 2, 0.5, 0.125, (1.0, 0.25, 0.5), (0.0, 1.0, 0.75), -1, 0),
-                                                          (2, 2, 1.0, 0.004, (0.1, 1.0), (1.0, 0.0, 0.0), 7, None)):
+    all_reads, all_counts = reads, counts
+    for chains, steps, fix, F, temps, probs, thr, seed, nrow in ((1, 3, 0.999, 0.0, (1.0,), (0.5, 0.25, 1.0), 100, 11, 3), (3, 2, 0.5, 0.125, (1.0, 0.25, 0.5), (0.0, 1.0, 0.75), -1, 0, 3),
+                                                                (2, 2, 1.0, 0.004, (0.1, 1.0), (1.0, 0.0, 0.0), 7, None, 3),
+                                                                # a single distinct read with a count (what de-duplication leaves of a clean homozygous sample), fixing off / on
+                                                                (1, 2, 2.0, 0.0, (1.0,), (0.5, 0.5, 0.5), 100, 3, 1), (2, 2, 0.9, 0.1, (0.5, 1.0), (0.5, 0.5, 0.5), 100, 3, 1)):
+        reads, counts = all_reads[:nrow], all_counts[:nrow]
         calls, seeds = [], []
 
         def stub(**kw):
@@ -523,7 +527,7 @@ def asm_fit(r, payload):
                 npr.seed = real_seed
         r.evaluations += 1
         r.nontrivial += 1
-        tag = "asm-fit|chains=%d|fix=%g|F=%g" % (chains, fix, F)
+        tag = "asm-fit|chains=%d|fix=%g|F=%g|rows=%d" % (chains, fix, F, nrow)
         if fixed.all():
             r.note("asm-fit: all SNVs fixed for fix=%g" % fix)
         if len(calls) != (0 if fixed.all() else chains):
